@@ -1,5 +1,6 @@
 use crate::core::Property;
 
+pub mod c01;
 pub mod c05;
 pub mod c08;
 pub mod c09;
@@ -9,5 +10,5 @@ pub mod c13;
 pub mod c14;
 
 pub fn all() -> Vec<Property> {
-    vec![c05::property_c05(), c05::property_c18(), c08::property(), c09::property(), c10::property(), c12::property(), c13::property(), c14::property()]
+    vec![c01::property_c01(), c01::property_c02(), c01::property_c03(), c05::property_c05(), c05::property_c18(), c08::property(), c09::property(), c10::property(), c12::property(), c13::property(), c14::property()]
 }
